@@ -10,6 +10,7 @@ From CG Require Import Model.BashSem Model.Glob Spec.Lang Spec.ScriptRead Spec.M
 From CG Require Import Proofs.TreeFacts Proofs.BashScript Proofs.BashCodec Proofs.EmbedEndToEnd Proofs.SubChecks
   Proofs.BashMeaningSub Proofs.BashMeaningMix Proofs.StripFacts Proofs.GlobFacts Proofs.CapstoneMeaning.
 From CG Require Import Spec.Choice Proofs.CheckProvenance Proofs.CapstoneCommands Proofs.CapstoneChoice.
+From CG Require Import Proofs.CapstoneTotalRun.
 From CGgen Require Import Consts.
 
 (** ** C14 -- layout and statement order do not change the script
@@ -241,3 +242,37 @@ Example ex_C11_capstone_inhabited :
   end.
 Proof. vm_compute. reflexivity. Qed.
 Print Assumptions ex_C11_capstone_inhabited.
+
+(** ** C17 / C06 -- the functions of the script terminate
+
+    If [compile_bash] returns a script and no within-word literal of the (validated) literal orders
+    is empty -- the parser never produces an empty literal; the hypothesis is the decidable
+    [sub_lits_nonempty o], evaluated by the tie -- then the interpreter of the script's functions
+    on the tables of that script ([BashSem.run_from Repaired], the model of /repo HEAD's bash
+    templates) neither runs out of fuel nor reaches a panic site, for EVERY environment, every
+    list of typed words and every prefix, and its return code is 0 or 1.
+    (C12: [C12_chain_any_repaired_variant] is about the table family [chain_alltables], tied to
+    [all_tables] of the grammars [cmd --opt=(..|..) next;] by differential execution in c12.py, not
+    by a theorem; no source-level corollary is claimed for it.) *)
+Theorem C17_compile_bash_run_total :
+  forall o builtins text s,
+    compile_bash o builtins text = Ok s -> sub_lits_nonempty o = true ->
+    exists v c nd a,
+      compile (pick_table (o_pops o)) (o_fuel o) builtins text Bash = Ok (v, c)
+      /\ all_tables Bash c (o_main_lits o) (o_sub_lits o) = Ok (nd, a)
+      /\ forall e ws p,
+           run_from Repaired (d_start (c_main c)) a e ws p <> OutOfFuel
+           /\ (forall site, run_from Repaired (d_start (c_main c)) a e ws p <> Panic site)
+           /\ (forall r, run_from Repaired (d_start (c_main c)) a e ws p = Ok r -> r_rc r = 0 \/ r_rc r = 1).
+Proof. exact compile_bash_run_total. Qed.
+Check C17_compile_bash_run_total :
+  forall o builtins text s,
+    compile_bash o builtins text = Ok s -> sub_lits_nonempty o = true ->
+    exists v c nd a,
+      compile (pick_table (o_pops o)) (o_fuel o) builtins text Bash = Ok (v, c)
+      /\ all_tables Bash c (o_main_lits o) (o_sub_lits o) = Ok (nd, a)
+      /\ forall e ws p,
+           run_from Repaired (d_start (c_main c)) a e ws p <> OutOfFuel
+           /\ (forall site, run_from Repaired (d_start (c_main c)) a e ws p <> Panic site)
+           /\ (forall r, run_from Repaired (d_start (c_main c)) a e ws p = Ok r -> r_rc r = 0 \/ r_rc r = 1).
+Print Assumptions C17_compile_bash_run_total.
